@@ -110,6 +110,19 @@ impl LibraryRenderer {
         }
         Ok(())
     }
+
+    /// Writes the steps before or after a transition. More than one step
+    /// is written as a parenthesized list.
+    fn visit_transition_steps(&mut self, steps: &[Id]) -> Result<(), Diagnostic> {
+        if steps.len() > 1 {
+            self.write_ws("(");
+        }
+        visit_comma_separated!(self, steps.iter(), Id);
+        if steps.len() > 1 {
+            self.write_ws(")");
+        }
+        Ok(())
+    }
 }
 
 impl Visitor<Diagnostic> for LibraryRenderer {
@@ -899,10 +912,10 @@ impl Visitor<Diagnostic> for LibraryRenderer {
         }
 
         self.write_ws("FROM");
-        visit_comma_separated!(self, node.from.iter(), Id);
+        self.visit_transition_steps(&node.from)?;
 
         self.write_ws("TO");
-        visit_comma_separated!(self, node.to.iter(), Id);
+        self.visit_transition_steps(&node.to)?;
         self.newline();
 
         self.indent();
